@@ -1,4 +1,5 @@
 CONSTANTS
+  SvNames = {"Sv", "OK", "Rate_Limited", "lowerCase"}
   Modes = {"single", "folder"}
   Elsewheres = {"none", "same_ident_renamed", "same_ident_plain"}
   Kinds = {"struct", "generic_struct", "unit_enum", "tagged_enum", "alias", "recursive_struct", "recursive_enum", "generic_alias", "generic_enum", "unit_struct", "newtype_struct"}
